@@ -114,7 +114,10 @@ class Oracle:
                 pk.verify(sig, data, padding.PKCS1v15(), HASHES[s["hash"]]())
             elif s["kind"] == "pss":
                 h = HASHES[s["hash"]]()
-                pk.verify(sig, data, padding.PSS(mgf=padding.MGF1(h), salt_length=padding.PSS.MAX_LENGTH), h)
+                salt = {"max": padding.PSS.MAX_LENGTH, "auto": padding.PSS.AUTO, "digest": padding.PSS.DIGEST_LENGTH}.get(s["salt"])
+                if salt is None:
+                    salt = int(s["salt"])
+                pk.verify(sig, data, padding.PSS(mgf=padding.MGF1(HASHES[s["mgf"]]()), salt_length=salt), h)
             elif s["kind"] == "ed25519":
                 pk.verify(sig, data)
             else:
